@@ -1,4 +1,4 @@
-import DadiVerif.Lemmas.DataDictSym
+import DadiVerif.Lemmas.DataDictPi
 /-!
 # C13 — genotype data become the spectrum and statistics that direct counting gives
 
@@ -78,6 +78,11 @@ theorem C13_total (pol : Bool) (proj : List ℕ) (snps : List Snp) (hlen : ∀ s
     have : boxSum (shapeOf proj) (snpSpecAt pol proj s) = boxSum (shapeOf proj) (fun _ => 0) :=
       boxSum_congr fun idx hidx => C13_snp_zero pol proj s (hlen s hs) hu' idx hidx
     rw [this, boxSum_zero]; simp [hu']
+
+example : (∀ s ∈ [(⟨0, 7, 0, 2, 1, 4, some 4, [(3, 5), (2, 0)]⟩ : Snp), ⟨0, 9, 0, 2, 1, 4, some 2, [(4, 4), (1, 1)]⟩],
+    s.calls.length = [4, 2].length) ∧
+    countUsable true [4, 2] [(⟨0, 7, 0, 2, 1, 4, some 4, [(3, 5), (2, 0)]⟩ : Snp), ⟨0, 9, 0, 2, 1, 4, some 2, [(4, 4), (1, 1)]⟩] = 1 := by
+  decide
 
 /-- the spectrum of the union of two data sets is the sum of their spectra -/
 theorem C13_additive (pol : Bool) (proj : List ℕ) (A B : List Snp) (idx : List ℕ) :
@@ -201,6 +206,9 @@ example : (⟨0, 1, 0, 2, 1, 4, some 3, [(3, 5)]⟩ : Snp).polarized = false ∧
 theorem C13_dict_distinct (snps : List Snp) (hk : keysDistinct snps) : mkDict snps = snps :=
   mkDict_distinct snps hk
 
+example : keysDistinct [(⟨0, 7, 0, 2, 1, 4, some 4, [(3, 5)]⟩ : Snp), ⟨0, 7, 1, 2, 1, 4, some 4, [(3, 5)]⟩, ⟨1, 7, 0, 2, 1, 4, none, [(1, 1)]⟩] := by
+  simp [keysDistinct, sameKey]
+
 /-! ## VCF lines -/
 
 /-- a kept VCF line is polarised exactly when it carries an AA value that is a single base equal to REF or ALT -/
@@ -308,6 +316,57 @@ theorem C13_subsample (gts : List Indiv) (ploidy : ℕ)
 
 example : chosenCalls [⟨some 0, [0, 1], false⟩, ⟨some 0, [1, 1], false⟩, ⟨some 0, [0, 0], false⟩] [2, 0] = (3, 1) := by decide
 
+/-- the per-line loop of the sub-sampling branch: a line is kept only if every requested population has at least the
+    requested number of complete genotypes; then exactly one draw per population is consumed, in order, and the calls of a
+    population are those of its drawn individuals -/
+theorem C13_subsample_loop (inds : List Indiv) (want : List (ℕ × ℕ)) (pops : List ℕ) (draws : List (List ℕ))
+    (acc res : List (ℕ × (ℕ × ℕ))) (left : List (List ℕ))
+    (h : subsampleLoop inds want pops draws acc = (some res, left)) :
+    ∃ used, draws = used ++ left ∧ used.length = pops.length ∧
+      res = acc ++ List.zipWith (fun p d => (p, chosenCalls (completeOfPop inds p) d)) pops used ∧
+      ∀ p ∈ pops, wanted want p ≤ (completeOfPop inds p).length := by
+  induction pops generalizing draws acc with
+  | nil =>
+    simp only [subsampleLoop, Prod.mk.injEq, Option.some.injEq] at h
+    exact ⟨[], by simp [h.2], rfl, by simp [h.1], by simp⟩
+  | cons p ps ih =>
+    simp only [subsampleLoop] at h
+    split_ifs at h with hlt
+    · simp at h
+    · cases draws with
+      | nil => simp at h
+      | cons d ds =>
+        simp only at h
+        obtain ⟨used, h1, h2, h3, h4⟩ := ih ds (acc ++ [(p, chosenCalls (completeOfPop inds p) d)]) h
+        refine ⟨d :: used, by simp [h1], by simp [h2], ?_, ?_⟩
+        · rw [h3]; simp
+        · intro q hq
+          rcases List.mem_cons.mp hq with e | e
+          · subst e; omega
+          · exact h4 q e
+
+/-- … and a line for which some requested population has too few complete genotypes is dropped -/
+theorem C13_subsample_drop (inds : List Indiv) (want : List (ℕ × ℕ)) (pops : List ℕ) (draws : List (List ℕ))
+    (acc : List (ℕ × (ℕ × ℕ))) (p : ℕ) (hp : p ∈ pops) (hlt : (completeOfPop inds p).length < wanted want p) :
+    (subsampleLoop inds want pops draws acc).1 = none := by
+  induction pops generalizing draws acc with
+  | nil => cases hp
+  | cons q qs ih =>
+    simp only [subsampleLoop]
+    split_ifs with h
+    · rfl
+    · cases draws with
+      | nil => rfl
+      | cons d ds =>
+        simp only
+        rcases List.mem_cons.mp hp with e | e
+        · subst e; exact absurd hlt h
+        · exact ih ds _ e
+
+example : subsampleLoop [⟨some 0, [0, 1], false⟩, ⟨some 1, [1, 1], false⟩, ⟨some 0, [9, 9], false⟩, ⟨some 0, [0, 0], false⟩]
+    [(0, 2), (1, 1)] [0, 1] [[1, 0], [0], [5]] [] = (some [(0, (3, 1)), (1, (0, 2))], [[5]]) := by decide
+example : (subsampleLoop [⟨some 0, [0, 1], false⟩, ⟨some 0, [9, 9], false⟩] [(0, 2)] [0] [[1, 0]] []).1 = none := by decide
+
 /-! ## statistics from the spectrum = statistics counted on the genotype matrix
     (fully called data, nothing projected: `cols` = one Boolean column per SNP, `true` = derived) -/
 
@@ -378,6 +437,59 @@ theorem C13_pi (n : ℕ) (hn : 2 ≤ n) (cols : List (List Bool)) (hlen : ∀ c 
   rw [hF]
   field_simp
 
+/-- **π̂ survives projection**: for completely called data projected from `n` down to any `m ≥ 2` chromosomes, π̂ of the
+    projected spectrum is still the mean number of pairwise differences counted on the full genotype matrix
+    (Σ_j w(m,n,i,j)·j(m−j) = m(m−1)·i(n−i)/(n(n−1)), two applications of Vandermonde) -/
+theorem C13_pi_projection (m n : ℕ) (hm : 2 ≤ m) (hmn : m ≤ n) (cols : List (List Bool)) (hlen : ∀ c ∈ cols, c.length = n) :
+    piOf m (fun j => spectrumAt true [m] (cols.map fun c => snpOfCols [c]) [j]) = piDirect n cols := by
+  have hn : 2 ≤ n := le_trans hm hmn
+  have hspec : ∀ j, spectrumAt true [m] (cols.map fun c => snpOfCols [c]) [j]
+      = sumMap cols (fun c => projWeight m n (countTrue c) j) := by
+    intro j
+    simp only [spectrumAt, specAt, if_true, rawAt_countDict, sumMap_map]
+    apply sumMap_congr
+    intro c hc
+    have h1 : (snpOfCols [c]).nseg = biallelicLen := rfl
+    simp only [contribAt, h1, ne_eq, not_true_eq_false, if_false, snpOfCols_polarized, skipEntry,
+      Bool.not_true, Bool.and_false, Bool.false_eq_true, snpOfCols_derived, snpOfCols_successful,
+      List.map_cons, List.map_nil, prodW, weightArgs, hlen c hc, mul_one]
+  unfold piOf piDirect piOuter
+  simp only [hspec]
+  have hm0 : (m : ℚ) ≠ 0 := by positivity
+  have hm1 : (m : ℚ) - 1 ≠ 0 := by
+    have : (2 : ℚ) ≤ m := by exact_mod_cast hm
+    linarith
+  have hn0 : (n : ℚ) ≠ 0 := by positivity
+  have hn1 : (n : ℚ) - 1 ≠ 0 := by
+    have : (2 : ℚ) ≤ n := by exact_mod_cast hn
+    linarith
+  -- exchange the sums and use the pair identity column by column
+  have e : ∀ j : ℕ, piTerm (sumMap cols fun c => projWeight m n (countTrue c) j) (piFreq (j : ℚ) (m : ℚ))
+      = sumMap cols (fun c => projWeight m n (countTrue c) j * ((j : ℚ) * ((m : ℚ) - j)) / ((m : ℚ) * m)) := by
+    intro j
+    unfold piTerm piFreq
+    rw [← sumMap_mul_right, ← sumMap_mul_right]
+    apply sumMap_congr
+    intro c _
+    field_simp
+  simp only [e]
+  rw [sumRange_sumMap, ← sumMap_div, ← sumMap_mul_left]
+  apply sumMap_congr
+  intro c hc
+  have hl := hlen c hc
+  have hsum := countTrue_add_countFalse c
+  have hle := countTrue_le c
+  rw [sumRange_div, projWeight_pairs m n (countTrue c) hm hmn (by omega)]
+  rw [discordant_eq, choose_eq, Nat.cast_choose_two]
+  have hF : (countFalse c : ℚ) = (n : ℚ) - (countTrue c : ℚ) := by
+    have : countFalse c = n - countTrue c := by omega
+    rw [this, Nat.cast_sub (by omega)]
+  push_cast
+  rw [hF]
+  field_simp
+
+example : (2 : ℕ) ≤ 3 ∧ 3 ≤ 4 ∧ ∀ c ∈ [[true, false, false, true], [false, false, false, true]], c.length = 4 := by decide
+
 /-- Watterson's θ = (number of segregating columns) / a_n -/
 theorem C13_watterson (n : ℕ) (cols : List (List Bool)) (hlen : ∀ c ∈ cols, c.length = n) :
     wattersonOf n (specOfCols n cols) = wattersonDirect n cols := by
@@ -440,6 +552,11 @@ theorem C13_fst (ns : List ℕ) (mcols : List (List (List Bool))) (hlen : ∀ co
     fstOf ns (spectrumAt true ns (mcols.map snpOfCols)) = fstDirect ns mcols := by
   unfold fstOf fstDirect fstASum fstDSum
   rw [boxSum_full_mul ns mcols hlen (fstAAt ns), boxSum_full_mul ns mcols hlen (fstDAt ns)]
+
+example : (∀ cols ∈ [[[true, false], [false, false, true]], [[true, true], [false, false, false]]], cols.map List.length = [2, 3]) ∧
+    InBox [1, 1] (shapeOf [2, 3]) := by
+  refine ⟨by decide, ?_⟩
+  simp [InBox, shapeOf]
 
 /-! ## structure of the source as the model assumes it (T) -/
 
